@@ -32,7 +32,9 @@ def gen_cases(tier, seed):
         for _ in range(rng.choice([5, 20, 60])):
             ts += rng.randrange(0, 1000)
             r = rng.random()
-            if r < 0.65:
+            if r < 0.08:
+                ops.append({"op": "bframe", "d": frame(rng), "ts": ts})
+            elif r < 0.65:
                 ops.append({"op": "frame", "d": frame(rng), "ts": ts})
             elif r < 0.7:
                 ops.append({"op": "reset"})
@@ -43,7 +45,7 @@ def gen_cases(tier, seed):
             else:
                 ops.append({"op": "frame", "d": [0, 0, 0, 0, 0, 0, 0, 0], "ts": ts})
         cases.append({"nid": rng.choice([1, 2, 127]), "ops": ops, "ncb": rng.choice([0, 1, 3])})
-    for _ in range(8 if tier == "quick" else 80):
+    for _ in range(12 if tier == "quick" else 80):
         ops = []
         for _ in range(4):
             want = rng.choice([-1, -1, 0x1000, 0x2310, 0, 0])      # 0 = waiting for the error-reset code
@@ -54,6 +56,13 @@ def gen_cases(tier, seed):
                     f[0], f[1] = want & 0xFF, want >> 8
                 feed.append([f, rng.randrange(1, 10000)])
             will_match = any(want < 0 or (f[0] | f[1] << 8) == want for f, _ in feed)
+            if want >= 0 and rng.random() < 0.5:
+                # non-matching frames in time, then a matching one after the time-out has expired
+                feed = [[f, t] for f, t in feed if (f[0] | f[1] << 8) != want]
+                late = frame(rng)
+                late[0], late[1] = want & 0xFF, want >> 8
+                feed.append([late, rng.randrange(1, 10000), True])
+                will_match = True       # the real wait is ended by the late frame, not by real time
             ops.append({"op": "wait", "filter": want, "feed": feed, "timeout": 5 if will_match else 0.12})
             ops.append({"op": "frame", "d": frame(rng), "ts": 7})
         cases.append({"nid": 3, "ops": ops, "ncb": 1})
